@@ -541,10 +541,12 @@ func runC19(c *Ctx) {
 	c.Min("L9-nothing-touched-after-hand-back", 60)
 	// ownership of an instance covers its engine object (the result map field is written without a lock by
 	// the request that owns the instance) only if no two instances share one
-	c.only = func(key string) bool { return key == "NewGenginePool#own-engine-per-instance" }
+	c.only = func(key string) bool {
+		return key == "NewGenginePool#own-engine-per-instance" || key == "NewGenginePool#lists-own-their-memory"
+	}
 	c.ruleConstruction("L10-one-engine-per-instance")
 	c.only = nil
-	c.Min("L10-one-engine-per-instance", 1)
+	c.Min("L10-one-engine-per-instance", 2)
 	// L11: package-level state. A variable of a product package that is written after package initialisation
 	// (a cache, a counter, a copy-on-write table) is shared by every engine, context and pool instance of the
 	// process: all its accesses outside the initialiser must hold one common mutex, a write exclusively
